@@ -121,6 +121,10 @@ pub struct PModule {
     /// text decorations: bit0 CRLF line ends, bit1 tabs for indentation, bit2 non-ASCII comment prefix lines,
     /// bit3 non-ASCII text before tokens (string/comment on the same line is impossible; uses identifiers)
     pub deco_bits: u8,
+    /// 0 usual import block, 1 nothing before the first item, 2 one blank line, 3 two blank lines,
+    /// 4 a comment line, 5 a module docstring
+    #[serde(default)]
+    pub header: u8,
 }
 
 #[derive(Clone, Debug)]
@@ -216,7 +220,7 @@ pub fn func(cfg: &PyGenCfg, role: u8) -> BoxedStrategy<PFunc> {
     let sig = if cfg.multiline { prop_oneof![3 => Just(0u8), 1 => Just(1u8), 1 => Just(2u8), 1 => Just(3u8)].boxed() } else { Just(0u8).boxed() };
     let uses = if cfg.body_uses { prop_oneof![2 => Just(Vec::new()), 1 => names_vec(2)].boxed() } else { Just(Vec::new()).boxed() };
     (
-        0u8..6,
+        0u8..8,
         prop_oneof![4 => Just(false), 1 => Just(true)],
         decos,
         vec(param(cfg), 0..=4),
@@ -243,8 +247,9 @@ pub fn module(cfg: PyGenCfg) -> impl Strategy<Value = PModule> {
         2 => (0u8..8).prop_map(PItem::Noise),
     ];
     let bits = if cfg.decorations { prop_oneof![3 => Just(0u8), 2 => 0u8..16].boxed() } else { Just(0u8).boxed() };
-    (vec(item, 1..=6), bits).prop_map(|(items, deco_bits)| {
-        let mut m = PModule { items, deco_bits };
+    let header = if cfg.decorations { prop_oneof![4 => Just(0u8), 3 => 1u8..6].boxed() } else { Just(0u8).boxed() };
+    (vec(item, 1..=6), bits, header).prop_map(|(items, deco_bits, header)| {
+        let mut m = PModule { items, deco_bits, header };
         normalise(&mut m);
         m
     })
@@ -354,6 +359,8 @@ pub fn normalise(m: &mut PModule) {
 
 pub fn func_name(role: u8, n: u8) -> String {
     match role {
+        // fixture functions are often named like the parameters that request them
+        0 if (n as usize) < 5 => PNAMES[n as usize].to_string(),
         0 => format!("fx_{}", (b'a' + (n % 26)) as char),
         1 => format!("test_{}", (b'a' + (n % 26)) as char),
         // near-misses of the test prefix must stay plain helpers
@@ -676,12 +683,27 @@ pub fn render_module(m: &PModule) -> String {
         if m.deco_bits & 4 != 0 {
             r.out.push("# -*- coding: utf-8 -*- \u{00e9}\u{4e2d}\u{1F600}".to_string());
         }
-        r.out.push("import pytest".to_string());
-        r.out.push("import pytest_asyncio".to_string());
-        r.out.push("import functools, typing, db".to_string());
-        r.out.push("from pytest import fixture, mark".to_string());
-        r.out.push("from typing import *".to_string());
-        r.out.push(String::new());
+        match m.header % 6 {
+            0 => {
+                r.out.push("import pytest".to_string());
+                r.out.push("import pytest_asyncio".to_string());
+                r.out.push("import functools, typing, db".to_string());
+                r.out.push("from pytest import fixture, mark".to_string());
+                r.out.push("from typing import *".to_string());
+                r.out.push(String::new());
+            }
+            1 => {}
+            2 => r.out.push(String::new()),
+            3 => {
+                r.out.push(String::new());
+                r.out.push("   ".to_string());
+            }
+            4 => r.out.push("# tests".to_string()),
+            _ => {
+                r.out.push("\"\"\"Module docstring.\"\"\"".to_string());
+                r.out.push(String::new());
+            }
+        }
     }
     for (idx, it) in m.items.iter().enumerate() {
         match it {
